@@ -138,7 +138,7 @@ func (g *registry) fl(f float64) string {
 }
 func (g *registry) tm(t time.Time) string {
 	id := tid(t)
-	g.times[id] = t
+	g.times[id] = t.UTC()
 	return zlit(id)
 }
 
@@ -201,10 +201,8 @@ func (g *registry) prelude() string {
 				}
 			}
 			if t, ok := parseTimeText(s); ok {
-				if id := tid(t); g.times[id].IsZero() && id != tid(time.Time{}) {
-					g.times[id], changed = t, true
-				} else if _, has := g.times[id]; !has {
-					g.times[id], changed = t, true
+				if _, has := g.times[tid(t)]; !has {
+					g.times[tid(t)], changed = t.UTC(), true
 				}
 			}
 		}
@@ -724,7 +722,7 @@ func mutateStruct(r *vh.Rng, tbl *sqlgen.Table, x interface{}, hist func(string)
 var junkSrc = []interface{}{nil, int64(0), int64(1), int64(-7), int64(300), int8(-3), int16(1000), int32(-70000), uint64(5),
 	uint64(math.MaxUint64), float64(1), float64(2.5), float32(0.5), float64(1e21), true, false, []byte("1"), []byte("x"), []byte(""), "1", "true", "+5", "007",
 	"-9223372036854775808", "9223372036854775808", []byte("2020-01-02 03:04:05"), "2020-01-02 03:04:05.123456", "0000-00-00 00:00:00", "2020-13-02 03:04:05",
-	time.Date(2001, 2, 3, 4, 5, 6, 0, time.UTC), []byte("Bq"), "T:z", []byte("null"), []byte("12"), "3.5", []byte("1e3"), "B", []byte("T:"), "-0", []byte("-1")}
+	time.Date(2001, 2, 3, 4, 5, 6, 0, time.UTC), []byte("Bq"), "T:z", []byte("null"), []byte("12"), "3.5", []byte("1e3"), "B", []byte("T:"), "-0", []byte("-1"), []byte("-0")}
 
 // ---------- equality of decoded structs (DeepEqual modulo time representation) ----------
 
@@ -962,7 +960,7 @@ func runCase(run *vh.Run, schema *sqlgen.Schema, idx int, c Case) *obs {
 		rowPath := paths[r.Intn(3)]
 		mixed := r.Chance(25)
 		inDomain := true
-		f24 := -1
+		f24 := map[string]bool{}
 		for i, dv := range ob.unbuilt {
 			d := ob.descs[i]
 			var s interface{}
@@ -976,6 +974,9 @@ func runCase(run *vh.Run, schema *sqlgen.Schema, idx int, c Case) *obs {
 					p = paths[r.Intn(3)]
 				}
 				col := pickColumn(r, d, dv)
+				if c.Preset == "uint64-field-on-int-unsigned-column" && k == 0 && d.kind == "uint" {
+					col, p = sqlcol{kind: "int", w: 32, unsigned: true}, "PBinlog"
+				}
 				v, ok := repr(col, p, dv)
 				if !ok { // try the natural column before giving up
 					col = naturalColumn(d, dv)
@@ -986,7 +987,7 @@ func runCase(run *vh.Run, schema *sqlgen.Schema, idx int, c Case) *obs {
 					run.Hist("repr:" + col.kind + "/" + p)
 					if d.kind == "uint" && col.kind == "int" && p == "PBinlog" && col.w < d.w {
 						if z, isInt := dv.(int64); isInt && z >= int64(1)<<uint(col.w-1) {
-							f24 = i
+							f24[tbl.Columns[i].Name] = true
 						}
 					}
 				} else {
@@ -1017,7 +1018,7 @@ func runCase(run *vh.Run, schema *sqlgen.Schema, idx int, c Case) *obs {
 				run.Fail(idx, sig, fmt.Sprintf("row %d: BuildStruct(%s) failed: %v; value %s", k, describeRow(ro), berr, printStruct(tbl, ob.x)), c)
 			} else if same, col := sameStruct(tbl, ob.x, ro.built); !same {
 				sig := "round-trip-mismatch"
-				if f24 >= 0 && tbl.Columns[f24].Name == col {
+				if f24[col] {
 					sig = "binlog-unsigned-int-narrower-than-field"
 				}
 				run.Fail(idx, sig, fmt.Sprintf("row %d column %s: sent %s, representation %s, decoded %s", k, col, printStruct(tbl, ob.x), describeRow(ro), printStruct(tbl, ro.built)), c)
@@ -1068,7 +1069,7 @@ func runCase(run *vh.Run, schema *sqlgen.Schema, idx int, c Case) *obs {
 			run.Hist("binlog:wrong-column-count")
 		}
 		var perr error
-		if p := safely(func() { ro.parsed, perr = livesql.VerifParseBinlogRow(tbl, cloneRow(ro.binlog), ro.expected, ro.source) }); p != "" {
+		if p := safely(func() { ro.parsed, perr = livesql.VerifParseBinlogRow(tbl, cloneRowI(ro.binlog), ro.expected, ro.source) }); p != "" {
 			run.Fail(idx, "parse-binlog-row-panic", p, c)
 			ob.failed = true
 			return ob
@@ -1121,6 +1122,8 @@ func runCase(run *vh.Run, schema *sqlgen.Schema, idx int, c Case) *obs {
 		fo := &filterObs{filter: sqlgen.Filter{}, rows: others}
 		typed := true
 		nonUTC := false
+		ptrZeroImplicit := false // a pointer to a zero value on an implicitnull column
+		ptrOnMarshaler := false  // a pointer on a non-pointer binary-tagged column whose type has Marshal
 		ncols := 1 + r.Intn(3)
 		if r.Chance(10) {
 			ncols = 0
@@ -1156,7 +1159,7 @@ func runCase(run *vh.Run, schema *sqlgen.Schema, idx int, c Case) *obs {
 			case q < 16 && k == 3: // mistyped: a value of another field's type
 				oc := tbl.Columns[r.Intn(len(tbl.Columns))]
 				ofv := reflect.ValueOf(from).Elem().FieldByIndex(oc.Index)
-				if d := descOf(oc); d.kind == "cbin" || d.kind == "ctext" || ob.descs[ci].kind == "cbin" || ob.descs[ci].kind == "ctext" {
+				if d := descOf(oc); d.kind == "cbin" || d.kind == "ctext" || (ob.descs[ci].tag != "TNone" && ob.descs[ci].tag != "TImplicitNull") {
 					val = fv.Interface() // reflect.Set inside nonPointerMarshal needs the column's own type
 				} else {
 					val = ofv.Interface()
@@ -1173,6 +1176,14 @@ func runCase(run *vh.Run, schema *sqlgen.Schema, idx int, c Case) *obs {
 			if timeExcluded(val) != "" {
 				nonUTC = true
 			}
+			if rv := reflect.ValueOf(val); rv.IsValid() && rv.Kind() == reflect.Ptr && !rv.IsNil() {
+				if ob.descs[ci].tag == "TImplicitNull" && rv.Elem().Interface() == reflect.Zero(rv.Elem().Type()).Interface() {
+					ptrZeroImplicit = true
+				}
+				if ob.descs[ci].kind == "cbin" && !ob.descs[ci].ptr {
+					ptrOnMarshaler = true
+				}
+			}
 			fo.filter[col.Name] = val
 		}
 		fo.names = sortedNames(fo.filter)
@@ -1186,6 +1197,10 @@ func runCase(run *vh.Run, schema *sqlgen.Schema, idx int, c Case) *obs {
 					fo.verdicts = append(fo.verdicts, t.Test(row))
 				}
 			}); p != "" {
+				if ptrOnMarshaler {
+					run.Fail(idx, "valuer-panics-on-pointer-filter-for-binary-column", fmt.Sprintf("filter %v: %s", fo.filter, p), c)
+					continue
+				}
 				run.Fail(idx, "tester-panic", p, c)
 				ob.failed = true
 				return ob
@@ -1229,7 +1244,11 @@ func runCase(run *vh.Run, schema *sqlgen.Schema, idx int, c Case) *obs {
 						} else if typed && !nonUTC {
 							for i, row := range fo.rows {
 								if v2 := t2.Test(row); v2 != fo.verdicts[i] {
-									run.Fail(idx, "proto-round-trip-changes-verdict", fmt.Sprintf("filter %v -> %v on row %s: %v -> %v", fo.filter, fo.back, printStruct(tbl, row), fo.verdicts[i], v2), c)
+									sig := "proto-round-trip-changes-verdict"
+									if ptrZeroImplicit {
+										sig = "proto-pointer-to-zero-on-implicitnull-column"
+									}
+									run.Fail(idx, sig, fmt.Sprintf("filter %v -> %v on row %s: %v -> %v", fo.filter, fo.back, printStruct(tbl, row), fo.verdicts[i], v2), c)
 									break
 								}
 							}
@@ -1278,6 +1297,17 @@ func naturalColumn(d mdesc, v driver.Value) sqlcol {
 
 func cloneRow(row []interface{}) []driver.Value {
 	out := make([]driver.Value, len(row))
+	for i, v := range row {
+		if b, ok := v.([]byte); ok {
+			v = append([]byte{}, b...)
+		}
+		out[i] = v
+	}
+	return out
+}
+
+func cloneRowI(row []interface{}) []interface{} {
+	out := make([]interface{}, len(row))
 	for i, v := range row {
 		if b, ok := v.([]byte); ok {
 			v = append([]byte{}, b...)
@@ -1363,6 +1393,19 @@ func filterTerm(g *registry, f sqlgen.Filter) string {
 	return vh.CoqList(xs)
 }
 
+func extractTerm(g *registry, tbl *sqlgen.Table, f sqlgen.Filter) string {
+	var xs []string
+	for _, c := range tbl.Columns { // the model lists the row's own filter in column order
+		if v, ok := f[c.Name]; ok {
+			xs = append(xs, "("+vh.CoqString(c.Name)+", "+g.dyn(v)+")")
+		}
+	}
+	if len(xs) != len(f) {
+		xs = append(xs, "(\"<extra>\", DynNil)")
+	}
+	return vh.CoqList(xs)
+}
+
 func caseTerm(g *registry, ob *obs) string {
 	tbl := ob.tbl
 	var cols []string
@@ -1419,5 +1462,5 @@ func caseTerm(g *registry, ob *obs) string {
 			vh.CoqList(rvs), protoT, backT))
 	}
 	return fmt.Sprintf("mk_case %s %s %s\n %s\n %s %s\n %s", vh.CoqList(cols), g.structVals(tbl, ob.x), vh.CoqList(dvs),
-		vh.CoqList(rows), filterTerm(g, ob.extract), vh.CoqBool(ob.self), vh.CoqList(fos))
+		vh.CoqList(rows), extractTerm(g, tbl, ob.extract), vh.CoqBool(ob.self), vh.CoqList(fos))
 }
